@@ -274,7 +274,9 @@ class SqlImpl(TableImpl):
 
             arrange = expr.context_kwargs.get("arrange")
             if arrange:
-                order_by = dedup_order_by(cls.compile_order(order, sqa_expr) for order in arrange)
+                order_by = dedup_order_by(
+                    cls.compile_order(order, sqa_expr) for order in arrange if not is_const_order(order)
+                )
             else:
                 order_by = None
 
@@ -354,7 +356,9 @@ class SqlImpl(TableImpl):
                 sel = sel.offset(query.offset)
 
         if query.order_by:
-            sel = sel.order_by(*dedup_order_by(cls.compile_order(ord, sqa_expr) for ord in query.order_by))
+            sel = sel.order_by(
+                *dedup_order_by(cls.compile_order(ord, sqa_expr) for ord in query.order_by if not is_const_order(ord))
+            )
 
         sel = sel.with_only_columns(*(sqa_expr[uid] for uid in query.select))
 
@@ -600,6 +604,12 @@ class SqlImpl(TableImpl):
         # by default we want to follow polars for cum_sum to ensure equal order values
         # don't get the same result value
         return True
+
+
+# A constant does not influence the ordering, but SQL interprets an integer literal in
+# ORDER BY as the position of a result column.
+def is_const_order(order: Order) -> bool:
+    return types.is_const(order.order_by.dtype())
 
 
 # MSSQL complains about duplicates in ORDER BY.
